@@ -309,6 +309,19 @@ Fixpoint run_ops (ops : list bulk_op) (m : bmatrix) : option bmatrix :=
   | o :: r => match apply_op o m with None => None | Some m' => run_ops r m' end
   end.
 
+(* the same histories on the code without fixes/C17_rename_frame_elif.patch (used by the harness only to explain
+   correspondence differences while that finding is recorded as known instead of repaired) *)
+Definition apply_op_unfixed (o : bulk_op) (m : bmatrix) : option bmatrix :=
+  match o with
+  | OpRenameFrame old new => rename_frame_unfixed old new m
+  | _ => apply_op o m
+  end.
+Fixpoint run_ops_unfixed (ops : list bulk_op) (m : bmatrix) : option bmatrix :=
+  match ops with
+  | [] => Some m
+  | o :: r => match apply_op_unfixed o m with None => None | Some m' => run_ops_unfixed r m' end
+  end.
+
 (* ------------------------------------------------------------------------------------------------------------ *)
 (* Part 2. Vocabulary of the statements                                                                          *)
 
